@@ -200,3 +200,4 @@ def quantised_and_curved_fanout(H, case):
                 H.check("monotone_in_input", ok, witness={"curve": cn, "input": v, "prev": prev, "got": got})
             prev = got
 
+
